@@ -136,12 +136,27 @@ type ocmd struct {
 }
 type oping struct{ ch chan struct{} }
 
+type ask struct {
+	from gen.PID
+	ref  gen.Ref
+}
+
 type observer struct {
 	act.Actor
 	w     *world
 	idx   int
 	mu    sync.Mutex
 	notes []note
+	asks  []ask // requests received (never answered by HandleCall): (caller, ref) pairs minted by the peer
+}
+
+// a request from a process of B: remember who asked with which reference and do not answer
+// (nil result = "handled asynchronously"): the pair is used later with SendResponse / SendResponseError
+func (o *observer) HandleCall(from gen.PID, ref gen.Ref, request any) (any, error) {
+	o.mu.Lock()
+	o.asks = append(o.asks, ask{from, ref})
+	o.mu.Unlock()
+	return nil, nil
 }
 
 func (o *observer) Init(args ...any) error {
@@ -211,6 +226,10 @@ type targetRec struct {
 	got   []int // payloads of regular messages / requests that reached this process
 	ready chan struct{}
 	gone  chan struct{}
+	trap  bool     // the process traps exit signals (they arrive as gen.MessageExitPID)
+	exits []string // trapped exit signals: reasons
+	other int      // any other message
+	why   error    // reason the process terminated with
 }
 
 type targetActor struct {
@@ -221,6 +240,9 @@ type targetActor struct {
 func (t *targetActor) Init(args ...any) error {
 	t.rec = args[0].(*targetRec)
 	t.rec.pid = t.PID()
+	if t.rec.trap {
+		t.SetTrapExit(true)
+	}
 	return nil
 }
 
@@ -253,6 +275,14 @@ func (t *targetActor) HandleMessage(from gen.PID, message any) error {
 		t.rec.mu.Lock()
 		t.rec.got = append(t.rec.got, m)
 		t.rec.mu.Unlock()
+	case gen.MessageExitPID:
+		t.rec.mu.Lock()
+		t.rec.exits = append(t.rec.exits, fmt.Sprint(m.Reason))
+		t.rec.mu.Unlock()
+	default:
+		t.rec.mu.Lock()
+		t.rec.other++
+		t.rec.mu.Unlock()
 	}
 	return nil
 }
@@ -272,7 +302,12 @@ func (t *targetActor) HandleCall(from gen.PID, ref gen.Ref, request any) (any, e
 	return n, nil
 }
 
-func (t *targetActor) Terminate(reason error) { close(t.rec.gone) }
+func (t *targetActor) Terminate(reason error) {
+	t.rec.mu.Lock()
+	t.rec.why = reason
+	t.rec.mu.Unlock()
+	close(t.rec.gone)
+}
 
 // ---- cutting TCP proxy ----------------------------------------------------------------------------
 
@@ -380,6 +415,7 @@ type world struct {
 	obsPid    []gen.PID
 	mu        sync.Mutex
 	targets   []*targetRec // all incarnations
+	trapEven  bool         // targets in even slots trap exit signals
 }
 
 // every world listens on its own loopback address (127.x.y.z): thousands of short-lived TCP links to
@@ -463,7 +499,8 @@ func (w *world) startB(ntargets int) {
 		w.mu.Lock()
 		idx := w.inc*10 + j + 1
 		rec := &targetRec{idx: idx, inc: w.inc, ready: make(chan struct{}), gone: make(chan struct{}),
-			name: gen.Atom(fmt.Sprintf("tname%d", j+1)), event: gen.Atom(fmt.Sprintf("tevent%d", j+1))}
+			name: gen.Atom(fmt.Sprintf("tname%d", j+1)), event: gen.Atom(fmt.Sprintf("tevent%d", j+1)),
+			trap: w.trapEven && (j+1)%2 == 0}
 		w.targets = append(w.targets, rec)
 		w.mu.Unlock()
 		pid, err := b.Spawn(func() gen.ProcessBehavior { return &targetActor{} }, gen.ProcessOptions{}, rec)
